@@ -442,6 +442,24 @@ func c03Check(ctx *vfCtx, c c03Case) {
 		if !vfCatch(ctx, "C03/edit/"+label, func() { cid = e.EventID() }) && cid != orig.EventID {
 			ctx.Fail("C03/event-id-changed-by/"+label+"/cached", "cached event ID changed by %s: %s -> %s", label, orig.EventID, cid)
 		}
+		// ... and the edited event still travels through the headered form (what a server stores and
+		// reloads) as the event it is
+		var hj []byte
+		var herr, hperr error
+		var hid string
+		if vfCatch(ctx, "C03/edit/"+label+"/headered", func() {
+			if hj, herr = e.ToHeaderedJSON(); herr == nil {
+				var back PDU
+				if back, hperr = NewEventFromHeaderedJSON(append([]byte(nil), hj...), e.Redacted()); hperr == nil {
+					hid = back.EventID()
+				}
+			}
+		}) {
+			return
+		}
+		if herr != nil || hperr != nil || hid != orig.EventID {
+			ctx.Fail("C03/headered-form-lost-by/"+label, "after %s the event's headered form does not parse back to it (ToHeaderedJSON: %v, NewEventFromHeaderedJSON: %v, event ID %q, want %q): %q", label, herr, hperr, hid, orig.EventID, hj)
+		}
 	}
 	for i, ed := range c.Edits {
 		if ctx.Failed() {
